@@ -32,6 +32,14 @@ const MAX_INLINE: usize = 3 * size_of::<usize>() - 2;
 struct Counting;
 
 static TRACK: AtomicBool = AtomicBool::new(false);
+/// `--set tsan_acquire_hint=1` (TSan step only). ThreadSanitizer does not model
+/// `atomic::fence(Acquire)`, which is how `ArcStr::drop` orders the other owners' last reads before
+/// the free (std's `Arc` swaps the fence for an acquire load under TSan for the same reason). With
+/// the hint the allocator performs that acquire load on the first word of a block about to be
+/// freed (for an `ArcStr` block this is its `strong` counter). TSan then sees the
+/// release-decrement -> acquire edge when the decrement really is `Release`, and still reports the
+/// free as a race when it is `Relaxed`. It cannot tell whether the fence itself is there (Miri can).
+static TSAN_HINT: AtomicBool = AtomicBool::new(false);
 static LIVE_COUNT: AtomicI64 = AtomicI64::new(0);
 static LIVE_BYTES: AtomicI64 = AtomicI64::new(0);
 static TOTAL_ALLOCS: AtomicU64 = AtomicU64::new(0);
@@ -49,6 +57,11 @@ unsafe impl GlobalAlloc for Counting {
         p
     }
     unsafe fn dealloc(&self, p: *mut u8, l: Layout) {
+        if TSAN_HINT.load(Ordering::Relaxed) && l.align() >= align_of::<usize>() && l.size() >= 4 * size_of::<usize>() {
+            // SAFETY: the block is still allocated, large enough and aligned for a usize.
+            let first = unsafe { &*p.cast::<std::sync::atomic::AtomicUsize>() };
+            std::hint::black_box(first.load(Ordering::Acquire));
+        }
         if TRACK.load(Ordering::Relaxed) {
             LIVE_COUNT.fetch_sub(1, Ordering::Relaxed);
             LIVE_BYTES.fetch_sub(l.size() as i64, Ordering::Relaxed);
@@ -595,6 +608,7 @@ fn main() {
     // Decide about tracking before anything else allocates memory that is freed later.
     let track = !std::env::args().any(|a| a == "alloc_track=0");
     TRACK.store(track, Ordering::SeqCst);
+    TSAN_HINT.store(std::env::args().any(|a| a == "tsan_acquire_hint=1"), Ordering::SeqCst);
     let mut args = Args::parse();
     let mut m = Monitor::new(
         "C33",
@@ -610,6 +624,9 @@ fn main() {
     } else {
         m = m.assume("counting allocator off (alloc_track=0): leak / double-free detection is left to the engine (LSan/ASan/Miri)");
     }
+    if TSAN_HINT.load(Ordering::Relaxed) {
+        m = m.assume("tsan_acquire_hint=1: the allocator does an acquire load on the first word of a block before freeing it, standing in for ArcStr::drop's acquire fence, which ThreadSanitizer does not model; the presence of the fence itself is checked by the Miri step only");
+    }
     if let Some(r) = args.replay_case() {
         // Schedules cannot be replayed; re-run the workload with the recorded parameters.
         let p = &r["case"]["params"];
@@ -621,14 +638,14 @@ fn main() {
     let threads = args.get_u64("threads", default_threads).max(2) as usize;
     // Miri interprets channel traffic very slowly: fewer pipeline items there, the scheduler seeds
     // (-Zmiri-many-seeds) supply the variety instead.
-    let rounds = (args.n(6_000, 150_000) / if cfg!(miri) { 2 } else { 1 }).max(2);
-    let items = (args.n(30_000, 600_000) / if cfg!(miri) { 6 } else { 1 }).max(4);
+    let rounds = (args.n(6_000, 150_000) / if cfg!(miri) { 3 } else { 1 }).max(2);
+    let items = (args.n(30_000, 600_000) / if cfg!(miri) { 10 } else { 1 }).max(4);
     let shared = args.n(300, 3_000);
     let iters = args.n(400, 2_000).max(6);
     let max_len = args.n(4_096, 65_536).max(64) as usize;
     let stash_cap = 8;
     let params = json!({"seed": args.seed, "scale": args.scale, "tier": args.tier.as_str(), "threads": threads,
-        "rounds": rounds, "items": items, "shared": shared, "iters": iters, "max_len": max_len, "alloc_track": track});
+        "tsan_acquire_hint": TSAN_HINT.load(Ordering::Relaxed), "rounds": rounds, "items": items, "shared": shared, "iters": iters, "max_len": max_len, "alloc_track": track});
 
     // Everything the workloads need is built before the baseline and freed after the last check.
     let warm = make_plans(args.seed ^ 0x77, threads, 2, 4, 1, 64);
